@@ -1,12 +1,14 @@
 (* FmtToksBin.v — the binary-operator family at the TEXT level (property C07, extension TOK).
 
-   For trees whose laid-out part consists of binary operators and an assignment (`binfam`: the
-   operands that format_binary_op_multiline recurses into are again binary operators or nodes that
-   are always printed through expr_to_source — literals, names, prefix / postfix operators, index,
+   For trees whose laid-out part consists of binary operators, conditionals (with else-if chains)
+   and an assignment (`binfam`: the operands that format_binary_op_multiline /
+   format_conditional_multiline recurse into are again of these kinds or nodes that are always
+   printed through expr_to_source — literals, names, prefix / postfix operators, index,
    field access), with the printer oracle instance, every width and indentation:
        toks (render (fmtd O w e i)) = toks (print_text e)
    — the SAME chunks, before `canon` (this family adds no trailing comma and prints no lambda), for
-   all three arms of format_binary_op_multiline and for the assignment arm of format_multiline. *)
+   all three arms of format_binary_op_multiline, both arms and the else-if chain of
+   format_conditional_multiline, and for the assignment arm of format_multiline. *)
 From Coq Require Import String Ascii List Bool Arith Lia.
 Require Import Blots.Num Blots.Ast Blots.Printer Blots.Formatter Blots.FmtTokens Blots.proofs.Relined
                Blots.proofs.FmtToks Blots.proofs.FmtToksDoc Blots.proofs.FmtToksAll.
@@ -65,7 +67,8 @@ Section Bin.
     match e with
     | EBin _ l r => binfam l && binfam r
     | EAssign _ v => binfam v
-    | EList _ | ERec _ | ELam _ _ | ECall _ _ | ECond _ _ _ | EDo _ _ | EOutput _ => false
+    | ECond c t f => binfam c && binfam t && binfam f
+    | EList _ | ERec _ | ELam _ _ | ECall _ _ | EDo _ _ | EOutput _ => false
     | _ => true
     end.
 
@@ -165,12 +168,100 @@ Section Bin.
     + rewrite BRK, HR. reflexivity.
   Qed.
 
-  Theorem binfam_toks : forall e, S e.
+  (* ---------------------------------------------------------------- the conditional family *)
+  Lemma fm_code : forall k d, flat_map piece_toks (Code k :: d) = toks k ++ flat_map piece_toks d.
+  Proof. reflexivity. Qed.
+  Lemma fm_nl : forall d, flat_map piece_toks (Nl :: d) = flat_map piece_toks d.
+  Proof. reflexivity. Qed.
+  Lemma fm_ind : forall n d, flat_map piece_toks (ind n :: d) = flat_map piece_toks d.
   Proof.
-    induction e; try (intro Hd; discriminate Hd); try leaf.
-    - apply step_assign; assumption.
-    - apply step_bin; assumption.
+    intros n d. cbn [flat_map]. unfold piece_toks at 1, ind. cbn [render_piece].
+    unfold toks. rewrite toks_from_trun.
+    pose proof (neutral0_blank _ (all_blank_indent n)) as H. unfold neutral0 in H. rewrite H. reflexivity.
   Qed.
+  Lemma pieces_toks : forall e j, tok_ok O e = true -> flat_map piece_toks (fd e j) = toks (render (fd e j)).
+  Proof. intros e j H. symmetry. exact (proj1 (layout_toks O w e j H)). Qed.
+
+  Lemma pt_cond_toks : forall c t f, ends_code (pt c) = true -> ends_code (pt t) = true ->
+    toks (pt (ECond c t f)) = ["if"] ++ toks (pt c) ++ ["then"] ++ toks (pt t) ++ ["else"] ++ toks (pt f).
+  Proof.
+    intros c t f Hc Ht. cbn [print_text].
+    assert (S1 : is_sep " ") by exact is_sep_space.
+    change ("if " +++ pt c +++ " then " +++ pt t +++ " else " +++ pt f)
+      with ("if " +++ pt c +++ " " +++ ("then " +++ pt t +++ " " +++ ("else " +++ pt f))).
+    rewrite (toks_app_closed "if " _ eq_refl).
+    rewrite (toks_app_sep (pt c) " " _ Hc S1).
+    rewrite (toks_app_closed "then " _ eq_refl).
+    rewrite (toks_app_sep (pt t) " " _ Ht S1).
+    rewrite (toks_app_closed "else " _ eq_refl). reflexivity.
+  Qed.
+
+  (* the else-if chain: the chunks of format_conditional_multiline's document *)
+  Definition CH (el : expr) : Prop := forall fc ft Tc Tt i,
+    (forall j, flat_map piece_toks (fc j) = Tc) -> (forall j, flat_map piece_toks (ft j) = Tt) ->
+    flat_map piece_toks (cond_doc w fd fc ft el i) =
+    ["if"] ++ Tc ++ ["then"] ++ Tt ++ ["else"] ++ toks (pt el).
+
+  Ltac norm := repeat (progress (repeat rewrite <- app_assoc; cbn [app])).
+  Ltac pcs Hc Ht :=
+    norm; repeat first [ rewrite fm_code | rewrite fm_nl | rewrite fm_ind | rewrite flat_map_app ];
+    rewrite ?Hc, ?Ht.
+
+  Lemma ch_plain : forall el, (match el with ECond _ _ _ => False | _ => True end) ->
+    tok_ok O el = true -> (forall i, toks (render (fd el i)) = toks (pt el)) -> CH el.
+  Proof.
+    intros el Hne Hk HS fc ft Tc Tt i Hc Ht.
+    destruct el; try (exfalso; exact Hne); cbn [cond_doc];
+      match goal with |- context [if ?c then _ else _] => destruct c end;
+      pcs Hc Ht; rewrite (pieces_toks _ _ Hk), HS; reflexivity.
+  Qed.
+
+  Definition P (e : expr) : Prop := binfam e = true -> tok_ok O e = true ->
+    (forall i, toks (render (fd e i)) = toks (pt e)) /\ CH e.
+
+  Lemma P_of_S : forall e, (match e with ECond _ _ _ => False | _ => True end) -> S e -> P e.
+  Proof.
+    intros e Hne HS Hb Hk. split; [exact (HS Hb Hk)|]. exact (ch_plain e Hne Hk (HS Hb Hk)).
+  Qed.
+  Lemma S_of_P : forall e, P e -> S e.
+  Proof. intros e HP Hb Hk. exact (proj1 (HP Hb Hk)). Qed.
+
+  Lemma step_cond : forall c t f, P c -> P t -> P f -> P (ECond c t f).
+  Proof.
+    intros c t f Pc Pt Pf Hb Hk.
+    pose proof Hk as Hk'. cbn [tok_ok] in Hk'. apply andb_prop in Hk'. destruct Hk' as [_ Hk'].
+    apply andb_prop in Hk'. destruct Hk' as [Hk' K3]. apply andb_prop in Hk'. destruct Hk' as [K1 K2].
+    pose proof Hb as Hb'. cbn [binfam] in Hb'. apply andb_prop in Hb'. destruct Hb' as [Hb' B3].
+    apply andb_prop in Hb'. destruct Hb' as [B1 B2].
+    destruct (Pc B1 K1) as [Sc _]. destruct (Pt B2 K2) as [St _]. destruct (Pf B3 K3) as [_ Cf].
+    destruct (node_of c K1) as [_ [E1 _]]. destruct (node_of t K2) as [_ [E2 _]].
+    assert (HC : forall j, flat_map piece_toks (fd c j) = toks (pt c))
+      by (intro j; rewrite (pieces_toks _ _ K1); apply Sc).
+    assert (HT : forall j, flat_map piece_toks (fd t j) = toks (pt t))
+      by (intro j; rewrite (pieces_toks _ _ K2); apply St).
+    assert (CHself : CH (ECond c t f)).
+    { intros fc ft Tc Tt i Hc Ht. cbn [cond_doc].
+      match goal with |- context [if ?c then _ else _] => destruct c end;
+        pcs Hc Ht; rewrite (Cf _ _ _ _ i HC HT), (pt_cond_toks c t f E1 E2); reflexivity. }
+    split; [|exact CHself].
+    intro i. enter (ECond c t f) Hb. unfold multiline_doc.
+    assert (Hd : dok true (cond_doc w fd (fd c) (fd t) f i) = true).
+    { apply dok_cond_doc with (G := Gd O w); [exact (Hrec_fd O w)
+      |exact (proj1 (dok_fmtd_all O w c K1))|exact (proj1 (dok_fmtd_all O w t K2))
+      |exact (proj2 (dok_fmtd_all O w f K3))]. }
+    rewrite (proj1 (doc_toks _ Hd)), (Cf _ _ _ _ i HC HT), (pt_cond_toks c t f E1 E2). reflexivity.
+  Qed.
+
+  Theorem binfam_all : forall e, P e.
+  Proof.
+    induction e; try (intro Hd; discriminate Hd);
+      try (apply P_of_S; [exact I|leaf]).
+    - apply step_cond; assumption.
+    - apply P_of_S; [exact I|]. apply step_assign. apply S_of_P. assumption.
+    - apply P_of_S; [exact I|]. apply step_bin; apply S_of_P; assumption.
+  Qed.
+  Theorem binfam_toks : forall e, S e.
+  Proof. intro e. apply S_of_P, binfam_all. Qed.
 
   Corollary binfam_lview : forall e i, binfam e = true -> tok_ok O e = true ->
     lview (render (fd e i)) = lview (pt e).
